@@ -8,7 +8,7 @@ pub mod referral;
 
 use simcore::{CheckSpec, Part};
 
-pub const PROPERTIES: &[&str] = &["C33"];
+pub const PROPERTIES: &[&str] = &["C30", "C31", "C33"];
 
 pub fn registry(property: &str) -> Option<CheckSpec> {
     match property {
@@ -18,6 +18,24 @@ pub fn registry(property: &str) -> Option<CheckSpec> {
             parts: vec![Part::new(referral::ReferralSim, 50_000, 900_000)],
             assumptions: vec![
                 "a single store (the multi-store feature is off); wallets are funded; only user <-> user and code <-> code account substitutions are tried as byzantine twins".into(),
+            ],
+        }),
+        "C31" => Some(CheckSpec {
+            property: "C31",
+            level: "exploration",
+            parts: vec![Part::new(discount::DiscountSim, 20_000, 400_000)],
+            assumptions: vec![
+                "the maximum rank is fixed by initialize_gt (it cannot be changed afterwards), so each run explores one rank table size".into(),
+                "a referred-user factor above 100 % is outside the statement's domain (\"factors up to 100 %\"): the setters accept it and the computation then fails; this is counted by a probe, not reported".into(),
+            ],
+        }),
+        "C30" => Some(CheckSpec {
+            property: "C30",
+            level: "exploration",
+            parts: vec![Part::new(gt::GtSim, 20_000, 400_000)],
+            assumptions: vec![
+                "exchange windows other than 86400 s are forged into the store account because gt_set_exchange_time_window is compiled out without the test-only feature".into(),
+                "a single mint crosses at most 3000 grow steps (the program loops once per step)".into(),
             ],
         }),
         _ => None,
